@@ -185,6 +185,9 @@ impl Driven {
     pub fn scale_values(&mut self, index: &[usize], scale: f64) {
         self.kkt.verif_scale_values(index, scale);
     }
+    pub fn offset_values(&mut self, index: &[usize], offset: f64, signs: &[i8]) {
+        self.kkt.verif_offset_values(index, offset, signs);
+    }
     pub fn update_P(&mut self, P: &CscMatrix<f64>) {
         self.kkt.update_P(P);
     }
